@@ -792,6 +792,16 @@ func (env *Env) call(e *Expr) *Val {
 		n.cur = stt
 		n.fr = stt.top()
 		return n.eval(e.Args[0])
+	case "ptrNonNil":
+		// ptrNonNil(x): x != nil if x is of pointer type, true otherwise (lets the contract of a generic function
+		// speak about the instances whose result is a pointer)
+		a := env.rvalue(env.eval(e.Args[0]))
+		if a.Ty != nil {
+			if _, ok := a.Ty.Underlying().(*types.Pointer); ok && a.K == VScalar {
+				return scalar(Neq(a.T, IntLit(0, a.T.Sort)), boolT)
+			}
+		}
+		return scalar(TTrue, boolT)
 	case "defined":
 		// defined(x): the local x has been assigned on this path (lets a clause mention locals of a later part of a loop body)
 		if len(e.Args) != 1 || e.Args[0].Op != "ident" {
